@@ -157,6 +157,9 @@ impl Network {
             debug!("static peer : {:?} connected", peer_index);
             peer.peer_status = PeerStatus::Connecting;
             peer.ip_address = ip_addr;
+            // a new connection starts without an outstanding challenge: one stored for the
+            // previous connection of this entry must not be answerable on this one
+            peer.challenge_for_peer = None;
         } else {
             debug!("new peer added : {:?}", peer_index);
             let mut peer = Peer::new(peer_index);
